@@ -122,6 +122,12 @@ class Sym:
         if k == "const":
             if "fn" in o:
                 return ("fnptr", o.get("resolved") or o["fn"], _targs(o))
+            m = re.search(r"::promoted\[(\d+)\]$", o["text"])
+            if m:
+                pr = self.b.raw.get("promoted") or []
+                i = int(m.group(1))
+                if i < len(pr) and len(pr[i]) == 1:
+                    return ("const", pr[i][0])
             return ("const", o["text"])
         return ("other", o.get("text", "?"))
 
